@@ -64,6 +64,14 @@ def generate(rng, tier, shard, nshards):
             yield {'lane': 'int-overflow', 'region': S.reg(cls, meta=gen.meta_with_include(rng), **p), 'history': 0,
                    'q': {'kind': 'intfar', 'form': '1d', 'shape': None, 'dtype': dt, 'n': 60, 'rs': rng.randrange(2 ** 31), 'big': big, 'r': r}}
             continue
+        if i % 400 == 23:
+            # one very large query (a full detector frame of positions): every position is answered, the last ones too
+            region = gen.pixel_region_spec(rng, classes=['PolygonPixelRegion', 'RegularPolygonPixelRegion', 'CirclePixelRegion', 'EllipsePixelRegion',
+                                                         'RectanglePixelRegion', 'EllipseAnnulusPixelRegion'])
+            yield {'lane': 'huge-query', 'region': region, 'history': 0,
+                   'q': {'kind': 'bbox', 'form': rng.choice(['1d', '2d']), 'shape': None, 'dtype': 'float64', 'n': rng.randint(2 ** 18 + 1, 700000),
+                         'rs': rng.randrange(2 ** 31)}}
+            continue
         if i % 40 == 11:
             # sibling isolation: regions built WITHOUT meta/visual, one of them edited in place, then more built
             a = gen.pixel_region_spec(rng)
